@@ -60,7 +60,7 @@ def parse_value(s):
     v = value()
     if pos[0] != len(toks): raise ValueError('trailing tokens: %r' % toks[pos[0]:pos[0]+5])
     return v
-RESULT_KEYS = ("hist", "out", "obs", "decl", "known", "plan", "res", "expected", "exp", "ans", "ret", "val", "value", "nom", "k")
+RESULT_KEYS = ("hist", "out", "obs", "decl", "known", "plan", "red", "pw", "res", "expected", "exp", "ans", "ret", "val", "value", "nom", "k")
 
 
 def mutate(v):
